@@ -4,6 +4,7 @@ package commitlog
 
 import (
 	"fmt"
+	"strings"
 	"testing"
 	"time"
 
@@ -101,7 +102,12 @@ func expandC09(t *testing.T, base *hx.Program, r *simrt.Rand, tier string) []*hx
 	msgs, bytes, ages = clean(msgs), clean(bytes), clean(ages)
 	var out []*hx.Program
 	add := func(m, b, a int64) {
-		q := &hx.Program{Prop: "C09", P: map[string]int64{"seg": base.P["seg"], "sticky": base.P["sticky"]}, Ops: base.Ops}
+		q := &hx.Program{Prop: "C09", P: map[string]int64{}, Ops: base.Ops}
+		for k, v := range base.P { // (everything but the limits, which are what is enumerated here)
+			if !strings.HasPrefix(k, "ret_") {
+				q.P[k] = v
+			}
+		}
 		if m > 0 {
 			q.P["ret_msgs"] = m
 		}
@@ -292,6 +298,7 @@ func (c *c09) exec(t *testing.T, prog *hx.Program, dec *simrt.Decider, verbose b
 					})
 				}
 				err := h.log.Clean()
+				nowEnd := time.Now().UnixNano() // (simulated time may pass inside the clean: time skips)
 				simrt.WaitUntil("appender-done", func() bool { return appDone })
 				if h.stop {
 					break
@@ -301,7 +308,7 @@ func (c *c09) exec(t *testing.T, prog *hx.Program, dec *simrt.Decider, verbose b
 					break
 				}
 				c.cleans++
-				c.judge(before, now, retM, retB, retA, conc > 0)
+				c.judge(before, now, nowEnd, retM, retB, retA, conc > 0)
 			}
 		}
 		h.do("close", func() { h.log.Close() })
@@ -328,7 +335,7 @@ func factsStr(fs []segFacts, now int64) string {
 	return s
 }
 
-func (c *c09) judge(before []segFacts, now int64, retM, retB int64, retA time.Duration, concurrent bool) {
+func (c *c09) judge(before []segFacts, now, nowEnd int64, retM, retB int64, retA time.Duration, concurrent bool) {
 	h := c.h1
 	h.s.Quiet(true)
 	defer h.s.Quiet(false)
@@ -353,10 +360,15 @@ func (c *c09) judge(before []segFacts, now int64, retM, retB int64, retA time.Du
 	// 2. exactly as many as needed. With a concurrent appender the clean looked at the log at
 	// some moment between its start and its end; what is needed grows monotonically with the data.
 	limits := fmt.Sprintf("limits msgs=%d bytes=%d age=%v", retM, retB, retA)
+	// The clean read the clock at some moment between its start and its end, too (the age limit): what is
+	// needed grows monotonically with the time.
 	want := needed(before, retM, retB, retA, now)
-	wantHi := want
+	wantHi := needed(before, retM, retB, retA, nowEnd)
+	if wantHi < want {
+		wantHi = want
+	}
 	if concurrent {
-		if hi := needed(union, retM, retB, retA, now); hi > wantHi {
+		if hi := needed(union, retM, retB, retA, nowEnd); hi > wantHi {
 			wantHi = hi
 		}
 	}
